@@ -112,7 +112,7 @@ def make_site(net, reqs):
 def expected(rq, i):
     """-> (code, payload or None (= don't care), bare)"""
     method = rq["method"]
-    if rq["target"] in ("unknown-path", "no-site"):
+    if rq["target"] in ("unknown-path", "no-site", "root-path"):
         return (132, None, False)
     if method > 7:
         # a code of the request class that no method is assigned to: nothing implements it
@@ -156,6 +156,8 @@ def run_case(case, want_trace=False):
             rq = reqs[i]
             path = "o%d" % i if rq["target"] != "unknown-path" else "nowhere%d" % i
             options = [(R.O_URI_PATH, path)]
+            if rq["target"] == "root-path":
+                options = []  # coap://host/ on a site without a root resource: an unknown path like any other
             if rq.get("noresp") is not None:
                 options.append((R.O_NO_RESPONSE, rq["noresp"]))
             # options that must not change anything about the outcome: Observe on a resource that is not observable,
@@ -268,7 +270,7 @@ def _case(draw):
             "peer": draw(st.integers(0, 1)),
             "con": draw(st.booleans()),
             "method": draw(st.one_of(st.integers(1, 7), st.integers(1, 7), st.integers(1, 7), st.sampled_from([8, 9, 20, 31]))),
-            "target": "no-site" if no_site else draw(st.sampled_from(["resource"] * 6 + ["unknown-path", "missing-method"])),
+            "target": "no-site" if no_site else draw(st.sampled_from(["resource"] * 6 + ["unknown-path", "missing-method", "root-path"])),
             "outcome": draw(_outcome),
             "delay": draw(st.sampled_from([0, 0, 0.05, 0.3])),
             "noresp": draw(st.sampled_from([None, None, None, 2, 8, 16, 26])),
